@@ -9,6 +9,15 @@ Driver ops for the parametric families (C05), all at `Float`:
   accessor <Name> <params…>            the accessors' values
   mixture  <lps> <ws>                  `VmapMixture._log_prob` from the component log-probs: `<private> <public>`
   mixweights <ws>                      `log_normalized_weights`
+  mixsample <Name> <k> <d> <ws> <param lists…> <component> <z>
+                                       `VmapMixture._sample` / `_sample_and_log_prob` of `k` components of family
+                                       `Name` with `d` dimensions each (`d = 0`: scalar components); every parameter
+                                       list is flattened component-major (`k·max(d,1)` entries); the key is the
+                                       categorical draw `component` and the selected component's base sample `z`:
+                                       `<sample> <sample'> <lp>`
+  mvn lp  <n> <loc> <chol flat row-major> <x>   `MultivariateNormal` with `chol = cholesky(covariance)`: `<private> <public>`
+  mvn s   <n> <loc> <chol flat> <z>             `_sample`, `_sample_and_log_prob` for base sample z: `<s> <s'> <lp>`
+  mvn acc <n> <loc> <chol flat>                 accessors `<loc> <covariance flat row-major>`
 
 Names / parameters: Normal loc scale | LogNormal loc scale | Uniform minval maxval | Gumbel loc scale |
 Cauchy loc scale | Laplace loc scale | Logistic loc scale | Exponential rate | StudentT df loc scale.
@@ -59,7 +68,7 @@ def family : Handler
       | none => pure "REJ"
       | some d =>
         let lp := d.logProb x ()
-        pure s!"{showF lp} {showF (nanToNegInf lp)}"
+        pure s!"{showF lp} {showF (publicLp lp)}"
   | _ => .error "bad family op"
 
 def familys : Handler
@@ -87,7 +96,7 @@ def familyv : Handler
       let comps ← (columns pss xs.length).mapM (famComp name)
       if comps.any Option.isNone then pure "REJ" else
       let lp := (lifted (comps.filterMap id)).logProb xs ()
-      pure s!"{showF lp} {showF (nanToNegInf lp)}"
+      pure s!"{showF lp} {showF (publicLp lp)}"
   | _ => .error "bad familyv op"
 
 def accessor : Handler
@@ -114,7 +123,7 @@ def mixture : Handler
       if lps.length != ws.length then .error "one weight per component"
       if !weightsValid ws then pure "REJ" else
       let lp := mixtureLogProb lps ws
-      pure s!"{showF lp} {showF (nanToNegInf lp)}"
+      pure s!"{showF lp} {showF (publicLp lp)}"
   | _ => .error "bad mixture op"
 
 def mixweights : Handler
@@ -122,5 +131,66 @@ def mixweights : Handler
       let ws ← parseFs ws
       if !weightsValid ws then pure "REJ" else pure (showFs (logNormWeights ws))
   | _ => .error "bad mixweights op"
+
+private def rowsOfF (n : Nat) (flat : List Float) : List (List Float) :=
+  (List.range n).map (fun i => (flat.drop (i * n)).take n)
+
+def mvnOp : Handler
+  | ["lp", n, loc, flat, x] => do
+      let n ← parseNat n
+      let flat ← parseFs flat
+      if flat.length != n * n then .error "chol must have n*n entries"
+      match mvn (← parseFs loc) (rowsOfF n flat) with
+      | none => pure "REJ"
+      | some d =>
+        let lp := d.logProb (← parseFs x) ()
+        pure s!"{showF lp} {showF (publicLp lp)}"
+  | ["s", n, loc, flat, z] => do
+      let n ← parseNat n
+      let flat ← parseFs flat
+      if flat.length != n * n then .error "chol must have n*n entries"
+      match mvn (← parseFs loc) (rowsOfF n flat) with
+      | none => pure "REJ"
+      | some d =>
+        let z ← parseFs z
+        let r := d.sampleLp z ()
+        pure s!"{showFs (d.sample z ())} {showFs r.1} {showF r.2}"
+  | ["acc", n, loc, flat] => do
+      let n ← parseNat n
+      let flat ← parseFs flat
+      if flat.length != n * n then .error "chol must have n*n entries"
+      let loc ← parseFs loc
+      match mvnLoc loc (rowsOfF n flat), mvnCovariance loc (rowsOfF n flat) with
+      | some l, some c => pure s!"{showFs l} {showFs c.flatten}"
+      | _, _ => pure "REJ"
+  | _ => .error "bad mvn op"
+
+/-- component `j`'s slice of a component-major flat parameter list -/
+private def compSlice (ps : List Float) (m j : Nat) : List Float := (ps.drop (j * m)).take m
+
+def mixsample : Handler
+  | name :: k :: d :: ws :: rest => do
+      let k ← parseNat k
+      let d ← parseNat d
+      let ws ← parseFs ws
+      let (rest, z) ← splitLast rest
+      let (pss, comp) ← splitLast rest
+      let pss ← pss.mapM parseFs
+      let comp ← parseNat comp
+      let z ← parseFs z
+      let m := if d == 0 then 1 else d
+      if ws.length != k then .error "one weight per component"
+      if pss.any (fun ps => ps.length != k * m) then .error "parameter lists must have k*max(d,1) entries"
+      if z.length != m then .error "base sample must have max(d,1) entries"
+      if !weightsValid ws then pure "REJ" else
+      let comps ← (List.range k).mapM (fun j =>
+        (columns (pss.map (fun ps => compSlice ps m j)) m).mapM (famComp name))
+      if comps.any (fun cs => cs.any Option.isNone) then pure "REJ" else
+      let dists : List (Distn (List Float) Unit (List Float) Float) :=
+        comps.map (fun cs => lifted (cs.filterMap id))
+      let mix := vmapMixture dists ws
+      let r := mix.sampleLp (comp, z) ()
+      pure s!"{showFs (mix.sample (comp, z) ())} {showFs r.1} {showF r.2}"
+  | _ => .error "bad mixsample op"
 
 end Drv
